@@ -250,11 +250,30 @@ def tryAlignBitsOld (s : St) (n : Int) : Try St :=
 def tryAlignBits (s : St) (n : Int) : Try St :=
   if n ≤ 0 then .err else .ok s
 
+/-! ### pkg/decode/scalar.go:13-60 bitBufIsZero — the mapper behind d.BitBufIsZero()/BitBufValidateIsZero()
+    (padding / reserved fields of id3v2, tar, icc_profile, macho, vorbis_packet, elf, apev2).
+    A 32 KiB scratch buffer `b`; per chunk `rl := min(brLeft, len(b)*8)`, `n` = bits read (= rl, the field lies
+    inside the buffer), then `for i := range nb { b[i] … }` with `nb := BitsByteCount(n)`: index i < nb must be
+    inside `b`. (Quirk kept out of the model because it cannot fault: `brPos` is never advanced, every chunk
+    re-reads the start of the field.) -/
+
+def isZeroBufBytes : Int := 32768
+
+/-- bytes of the scratch buffer scanned for a chunk of `n` bits -/
+def isZeroScanBytes (n : Int) : Int := bitsByteCount n
+
+/-- the variant a seeded change (S3-C06-2) put there: `int(n/8) + 1` -/
+def isZeroScanBytesSeeded (n : Int) : Int := n / 8 + 1
+
+/-- does the scan of a field of `nbits` bits index past the scratch buffer? (first chunk is the largest) -/
+def isZeroScanFault (scan : Int → Int) (nbits : Int) : Bool :=
+  decide (0 < nbits ∧ scan (min nbits (isZeroBufBytes * 8)) > isZeroBufBytes)
+
 /-- the primitives of the core run (harness/cmd/c06/core.go), called with an arbitrary integer -/
 inductive Prim where
   | okP | bits | ubits | u | rawlen | seekabs | seekrel | framed | limited | rangefn
   | byteslen | bytesrange | peekbytes | utf8 | bitbufrange | alignbits | structn
-  | errorf | fatalf | iopanic | leastbytes | leastbits
+  | errorf | fatalf | iopanic | leastbytes | leastbits | iszero
 deriving DecidableEq, Repr
 
 /-- decode.go:956 RangeFn with a function that reads nothing (since 2947129a a negative length is a
@@ -305,6 +324,11 @@ def corePrim (p : Prim) (s : St) (a : Int) : Outcome St :=
   | .leastbits =>                                                     -- decode.go:907
     if s.force then .ok s
     else if s.left < a then .panic .decoderError else .ok s
+  | .iszero =>                                      -- d.FieldRawLen("x", a, d.BitBufIsZero())
+    match tryBitBufLen s a with
+    | .err => .panic .ioError
+    | .fault w => .panic (.runtime w)
+    | .ok s' => if isZeroScanFault isZeroScanBytes a then .panic (.runtime "index-out-of-range") else .ok s'
 
 /-- primitives that, before 8465c2ad, allocated from their argument before (or without) checking it
     against the buffer, or divided by it -/
